@@ -121,6 +121,23 @@ class Case:
         self.rootsyn = list(desc["rootsyn"]) if desc.get("rootsyn") else None
 
     def _newick(self, T, features=None):
+        if self.desc.get("brlen"):
+            # branch lengths other than 1 on every edge (dated trees are ordinary inputs; the event model counts edges, not lengths)
+            import random as _r
+            rng = _r.Random(int(self.desc["brlen"]) * 31 + T.n)
+            features = features or {}
+
+            def rec(i):
+                s = "" if (self.desc.get("unnamed") and T.children[i]) else T.name[i]
+                if T.children[i]:
+                    s = "(" + ",".join(rec(c) for c in T.children[i]) + ")" + s
+                if T.parent[i] is not None:
+                    s += ":" + rng.choice(["0", "0.5", "2", "3", "12", "30.25"])
+                if i in features:
+                    s += "[&&NHX:" + ":".join(f"{k}={v}" for k, v in features[i].items()) + "]"
+                return s
+
+            return rec(0) + ";"
         if not self.desc.get("unnamed"):
             return T.newick(features)
         # ancestors left unnamed (ete3 names them ''); solutions are then read back by pre-order position
